@@ -54,6 +54,8 @@
    / preserve_suffix_v6 is given (v4 only 4, 8, 16; v6 only 8, 64; both;
    none) on texts with IPv4 and IPv6 addresses: directory API, single-file
    API and FileAnonymizer.anonymize_file against the stream API.
+11. Feature subsets with undo (alone; with passwords, words, AS numbers, all)
+   through every entry point including main and the CLI.
 """
 import concurrent.futures
 import itertools
@@ -399,6 +401,8 @@ def run(pid, tier):
     hand += [("nest", sh, ["dir", "main"], ft) for sh in nest_shapes for ft in (("PAWN", "P") if thorough else ("PAWN",))]
     # entry points agree under option sets with only one of the two host-bit options
     hand += [("hb", ft, ["dir", "file", "fafile"], ft) for ft in W.HB_SETS]
+    # feature subsets with UNDO (alone and with each other feature) through every entry point, the command line included
+    hand += [("hb", ft, ["dir", "main", "file", "main1", "fafile"] + (["cli"] if ft == "U" else []), ft) for ft in W.UNDO_SETS]
     nrel = len(rel_jobs)
     rel_jobs += [{"kind": kd, "gid": len(groups) + len(iso_jobs) + nrel + i, "tree": sh, "shape": sh, "form": "-", "feat": ft, "entries": en}
                  for i, (kd, sh, en, ft) in enumerate(hand)]
@@ -472,7 +476,7 @@ def run(pid, tier):
             _, job, res_, _ = meta[ti]
             ev = traces[ti][k]
             fam = {"rel": "relative-paths", "blk": "blocked-output-subdirectory", "sib": "sibling-inputs-with-derived-names",
-                   "seq": "repeated-single-file-calls", "nest": "output-inside-input", "hb": "host-bit-options"}[job["kind"]]
+                   "seq": "repeated-single-file-calls", "nest": "output-inside-input", "hb": "option-sets"}[job["kind"]]
             key = "clause=%s entry=%s family=%s tree=%s form=%s" % (clause, res_["entry"], fam, job["tree"], job["form"])
             if ev.get("ev") == "file":
                 key += " fault=%s" % ev["fault"]
@@ -528,6 +532,9 @@ def run(pid, tier):
     ck.notes["phase_wall"] = tm
 
     ck.notes["scenarios"] = gen_counts
+    ck.notes["undo_feature_subsets"] = {"option_sets": W.UNDO_SETS, "entries": ["dir", "main", "file", "main1", "fafile", "cli (U only)"],
+                                        "what": "undo (-u / undo_ip_anon) alone and with passwords / words / AS numbers / all of them: one output per input, "
+                                                "bytes equal to the stream API's under the same options"}
     ck.notes["host_bit_option_family"] = {"option_sets": W.HB_SETS, "entries": ["dir", "file", "fafile"],
                                           "what": "preserve_suffix_v4 / preserve_suffix_v6 given separately ('-' = not passed); texts with IPv4 and IPv6 "
                                                   "addresses; every entry point must reproduce the stream API's bytes under the same options and salt"}
